@@ -28,11 +28,15 @@ def shards(tier):
     n = len(cfg_list(tier))
     out += [("cfg", None, lo, min(n, lo + 10)) for lo in range(0, n, 10)]
     out += [("direct", None, 0, 1)]
+    out += [("ladder", None, j, j + 1) for j in range(len(LADDER) if tier == "thorough" else len(LADDER) - 1)]
     return out
 
 
 def run_shard(desc, acc, tier):
     kind, fam, lo, hi = desc
+    if kind == "ladder":
+        check_ladder(desc[2], acc)
+        return
     if kind == "direct":
         check_direct(acc)
         return
@@ -277,7 +281,60 @@ def check_direct(acc):
                         acc.nontriv(("direct", mi, vi, ii, di, dt.__name__))
 
 
+# size ladder: unpacked sizes from 1 KiB to 16 MiB in powers of 4 (+ one step just above 1 MiB), so that any size class a buffer, a
+# length field or a limit could distinguish is crossed once. (rows, columns) of a dense int64 matrix; n groups of a configurator.
+LADDER = [(6, 20), (26, 80), (104, 314), (201, 701), (418, 1254), (836, 2508)]
+
+
+def check_ladder(j, acc):
+    rows, cols = LADDER[j]
+    case = {"kind": "ladder", "step": j}
+    acc.n("traces")
+    acc.state(("ladder", j))
+    try:
+        i_, j_ = np.indices((rows, cols + 1))
+        M = ((i_ * 7 + j_ * 3) % 5 - 2).astype(np.int64)
+        variables = [puan.variable.support_vector_variable()] + [puan.variable(f"v{c}", (0, 1) if c % 3 else (-2, 5)) for c in range(cols)]
+        index = [puan.variable(f"r{r}") for r in range(rows)]
+        dpv = -1 - (np.arange(cols) % 2)
+        P = pnd.ge_polyhedron_config(M, default_prio_vector=dpv, variables=variables, index=index)
+        Q = pnd.ge_polyhedron_config.from_b64(P.to_b64())
+        acc.n("transitions", 2)
+        same = (type(Q) is type(P) and Q.dtype == P.dtype and np.array_equal(np.asarray(P), np.asarray(Q))
+                and [(v.id, v.bounds.as_tuple()) for v in P.variables] == [(v.id, v.bounds.as_tuple()) for v in Q.variables]
+                and [v.id for v in P.index] == [v.id for v in Q.index]
+                and np.array_equal(np.asarray(P.default_prio_vector), np.asarray(Q.default_prio_vector)))
+        if not same:
+            acc.violation(None, case, {"what": "large configurator polyhedron is not identical after the base64 round trip", "shape": [rows, cols + 1]})
+            return
+        # a model / configurator of the same scale through plog.to_b64 and through its polyhedron
+        groups = max(1, cols // 10)
+        rules = [cc.Xor(*[f"g{g}_{o}" for o in range(10)], default=[f"g{g}_0"], variable=f"G{g}") for g in range(groups)]
+        cfg = cc.StingyConfigurator(*rules, id="big")
+        back = pg.from_b64(cfg.to_b64())
+        acc.n("transitions", 2)
+        if type(back) is not type(cfg) or structure(back) != structure(cfg) or sorted(back.default_prios.items()) != sorted(cfg.default_prios.items()):
+            acc.violation(None, case, {"what": "large configurator is not identical after the base64 round trip", "groups": groups})
+            return
+        if groups <= 130:
+            Pc = cfg.ge_polyhedron
+            Qc = pnd.ge_polyhedron_config.from_b64(Pc.to_b64())
+            acc.n("transitions", 2)
+            if not (np.array_equal(np.asarray(Pc), np.asarray(Qc)) and [v.id for v in Pc.variables] == [v.id for v in Qc.variables]
+                    and np.array_equal(np.asarray(Pc.default_prio_vector), np.asarray(Qc.default_prio_vector))):
+                acc.violation(None, case, {"what": "polyhedron of a large configurator is not identical after the base64 round trip", "groups": groups,
+                                           "shape": list(Pc.shape)})
+                return
+        acc.nontriv(("ladder", j))
+        acc.hist("ladder_unpacked_bytes", int(M.nbytes))
+    except BaseException as e:
+        acc.violation(None, case, {"what": "round trip of a large object raised", "exc": repr(e)[:300], "shape": [rows, cols + 1]})
+
+
 def replay(case, acc):
+    if case.get("kind") == "ladder":
+        check_ladder(case["step"], acc)
+        return
     if case.get("kind") == "direct":
         check_direct(acc)
         return
